@@ -11,6 +11,7 @@ import sys
 import unicodedata
 
 sys.path.insert(0, os.path.dirname(os.path.dirname(os.path.abspath(__file__))))
+import core
 import gen_program
 import pyref
 import refsweep
@@ -18,9 +19,13 @@ from core import Stream, hexs, unhex
 
 ID = "C01"
 DESIGN_REF = "DESIGN.md section 5, C01; design/C01.md; design/REFTOOLS.md"
-LEAN_TARGETS = ["PV.C01.Thm"]
+LEAN_TARGETS = ["PV.C01.Thm", "PV.Prog.Thm"]
 DRIVER = "drv_c01"
 HARNESS = {"bin": "pvh_c01", "features": "default"}
+# the statement level of the grammar as a Lean function (design/PROG.md): its theorems and its correspondence streams
+# against the real parser are part of this check
+EXTRA_DRIVERS = ["drv_prog"]
+EXTRA_HARNESS = [{"bin": "pvh_prog", "features": "default"}]
 THEOREMS = [
     "PV.C01.setContext_spec",
     "PV.C01.setContext_shape",
@@ -37,11 +42,26 @@ THEOREMS = [
     "PV.C01.softKw_fails_subscript",
     "PV.C01.softKw_fails_nested_lambda",
     "PV.C01.softKw_fails",
+    # statement level (lean/PV/Prog): the Lean reference parser for whole programs
+    "PV.Prog.parseProgramFuel_mono",
+    "PV.Prog.parseProgram_total",
+    "PV.Prog.accepts_iff_eventually",
+    "PV.Prog.parseProgram_layout_free",
+    "PV.Prog.parse_expr_stmt_agree",
+    "PV.Prog.interactive_module_agree",
+    "PV.Prog.elif_chain_spec",
+    "PV.Prog.ifAssemble_spec",
+    "PV.Prog.import_level_spec",
+    "PV.Prog.annassign_simple_spec",
+    "PV.Prog.annassign_paren_name_simple",
+    "PV.Prog.render_parse_partial",
 ]
 TRUSTED = [
     "Lean 4.33.0 kernel; axioms limited to propext, Classical.choice, Quot.sound",
-    "the LALRPOP-generated LR automaton of parser/src/python.rs (tables + action glue) is NOT modelled: it is "
-    "covered only by the mechanism correspondence streams and by the reference sweep (exploration)",
+    "the LALRPOP-generated LR automaton of parser/src/python.rs (tables + action glue) is NOT modelled as an automaton; the "
+    "grammar it implements IS modelled: lean/PV/Prog/Parse.lean (statements, patterns, parameters, type parameters) on top of "
+    "lean/PV/C11/Spec.lean (expressions) is a Lean recursive-descent parser written from python.lalrpop, and every run diffs its "
+    "range-erased trees / rejections against the real parser on corpus, generated, stdlib and mutated programs (streams prog-*)",
     "hand-written models lean/PV/C01/Model.lean (context.rs, function.rs, grammar actions) and "
     "lean/PV/Lexer/SoftKw.lean (soft_keywords.rs), tied to the code by the correspondence streams of this run",
     "CPython 3.11.7 `ast.parse` as the meaning of 'the reference'; tools/pyref.py (reference dumper, the two "
@@ -54,14 +74,17 @@ PARTIAL = [
     "the full statement quantifies over all texts the reference grammar accepts; the theorems cover the "
     "hand-written mechanisms (context tagging for all expression trees, argument partition, parameter "
     "validation, elif/try/import/dotted-name/tuple assembly, the match/case look-ahead on lines without nested "
-    "top-level lambdas), not the LR automaton: statements, expressions and patterns as a whole are only swept",
+    "top-level lambdas) and the Lean reference parser PV.Prog.parseProgram (total, fuel-monotone, position-independent; "
+    "printer round trip render_parse_partial on a statement fragment); that parseProgram accepts exactly CPython's language "
+    "with CPython's trees is NOT proved: it is tied to the real parser by correspondence and the real parser to CPython by the sweep",
     "softKw_sound_partial holds on lines with at most one free colon placed right after the head or at the "
     "end; outside it the unchanged code is wrong (softKw_fails, witnesses `match[0]: int`, nested lambda)",
     "the `type` soft keyword look-ahead is swept, not proved",
 ]
 READY = True
-TECHNIQUE = ("Lean 4 theorems over hand-written models of the parser's hand-written mechanisms + differential "
-             "correspondence through the real parser; whole-language reference sweep against CPython as exploration")
+TECHNIQUE = ("Lean 4 theorems over hand-written models of the parser's hand-written mechanisms and over a Lean reference parser "
+             "for the whole grammar (PV.Prog on PV.C11) + differential correspondence of both with the real parser; "
+             "whole-language reference sweep against CPython as exploration")
 LEVEL_TEXT = ("Machine-checked Lean 4 theorems (unbounded: all expression trees, all argument/parameter lists, all "
               "elif chains, all token lines) about the hand-written mechanisms on the path from text to tree: "
               "store/del tagging equals CPython's target rule and changes nothing else, call arguments are the "
@@ -569,7 +592,7 @@ def streams(ctx):
               "match: int\n", "match: dict[str, int] = {}\n", "match -x:\n case 1: pass\n", "match *a, b:\n case 1: pass\n",
               "type X = int\n", "type X[T: int, *Ts, **P] = dict[T, P]\n", "def f[T](a: T) -> T: pass\n",
               "class C[T](B, metaclass=M): pass\n", "type type = type\n", "type match[case] = case\n",
-              "f(x for x in y)\n", "x = 1.\n", "x = 1.e3\n", "x = 0 if 1.else 2\n", "x = [1.if a else 2]\n",   # be24063 "x = 1 .real\n", "a = b = *c, d\n", "x = '\\ud800'\n",
+              "f(x for x in y)\n", "x = 1.\n", "x = 1.e3\n", "x = 0 if 1.else 2\n", "x = [1.if a else 2]\n", "x = 1 .real\n", "a = b = *c, d\n", "x = '\\ud800'\n",   # (be24063: 1.else)
               "def f(a, /, b=1, *c, d, e=2, **f): pass\n", "lambda *, a=1: 0\n", "with (a as b, c): pass\n", "with (a, b): pass\n",
               "with (a): pass\n", "try: pass\nexcept* E: pass\n", "x = yield\n", "async def f():\n await x\n", "if a:=1: pass\n",
               "[x for x in y if z if w for a in b]\n", "print >> f, x\n", "x = 0xFF + 0o7 + 0b1 + 1_0\n", "@a.b(c)\n@d\nclass E: pass\n",
@@ -624,6 +647,13 @@ def streams(ctx):
     if not q:
         filesi = [(s, None, "(ModInteractive" + r[len("(ModModule"):r.rfind(" (type_ignores [])")] + ")") for _, s, r in files[::3]]
         out.append(_sweep_stream(ctx, "sweep-stdlib-interactive", filesi, "i", "every third stdlib file, Interactive mode", kind="corpus"))
+    # statement-level tie: the Lean reference parser PV.Prog.parseProgram against the real parser (design/PROG.md)
+    import props.prog as PROG
+    for st in PROG.streams(ctx):
+        st.name = "prog-" + st.name
+        st.harness = st.harness or PROG.HARNESS
+        st.driver = st.driver or PROG.DRIVER
+        out.append(st)
     return out
 
 
@@ -648,3 +678,31 @@ def _pep695_corpus():
     for text, twin, patches in items:
         out.append(refsweep.make_request("m", 1, text, json.dumps({"twin": twin, "patches": patches})))
     return out
+
+
+def search(ctx, disagreements, bins):
+    """disagreements of the prog-* streams (Lean reference parser vs real parser): shrink, then judge the REAL parser against
+    CPython on the shrunk text — only a text CPython accepts with a different tree (or rejects/accepts differently) is a
+    failing input of this property"""
+    import props.prog as PROG
+    pd = [dict(e, stream=e["stream"][5:]) for e in disagreements if e.get("stream", "").startswith("prog-")]
+    if not pd:
+        return None
+    found = PROG.search(ctx, pd, bins)
+    if not found:
+        return None
+    mode = {"Module": "m", "Interactive": "i", "Expression": "e"}.get(found.get("mode"), "m")
+    try:
+        req = refsweep.make_request(mode, 1, found["source"], None)
+        _REFS[req] = refsweep.reference(found["source"], mode, None)
+        hbin = bins.get((HARNESS["bin"], HARNESS.get("features", "default")))
+        ans = core.run_lines([hbin], [req])[0]
+        fail = oracle(req, ans)
+    except Exception:
+        req, ans, fail = None, None, None
+    if fail and not classify(req, ans, None, fail):
+        found["failure"] = fail
+        found["request"] = req
+        found["impl"] = ans
+        return found
+    return None
